@@ -1,11 +1,46 @@
-//! C11: matrix resizing histories on a real `Matrix<i64>`; the same object keeps being used after
+//! C11: matrix resizing histories on a real `Matrix<E>`; the same object keeps being used after
 //! a caught panic.  Case language: see coq/theories/Run/RunC11.v.
 //!   (11 1 start (op ...))  ->  (2) | (0 (obs (o obs) ...))
+//! Every history is run for two element types — `i64` and a heap allocated, non-Copy `Heap` —
+//! and both must produce the same line.
 use crate::guarded;
 use crate::sx::*;
 use easy_ml::matrices::slices::{Slice, Slice2D};
 use easy_ml::matrices::views::{MatrixMut, MatrixRef};
 use easy_ml::matrices::Matrix;
+
+/// The element types the histories are run with.
+trait Elem: Clone + PartialEq + std::fmt::Debug + 'static {
+    fn of(x: i64) -> Self;
+    fn val(&self) -> i64;
+}
+impl Elem for i64 {
+    fn of(x: i64) -> Self {
+        x
+    }
+    fn val(&self) -> i64 {
+        *self
+    }
+}
+/// Owns heap memory and is not Copy: every duplication goes through Clone.
+#[derive(Clone, PartialEq)]
+struct Heap(Box<i64>);
+impl std::fmt::Debug for Heap {
+    fn fmt(&self, f: &mut std::fmt::Formatter<'_>) -> std::fmt::Result {
+        write!(f, "{}", self.0)
+    }
+}
+impl Elem for Heap {
+    fn of(x: i64) -> Self {
+        Heap(Box::new(x))
+    }
+    fn val(&self) -> i64 {
+        *self.0
+    }
+}
+fn elems<E: Elem>(v: Vec<i64>) -> Vec<E> {
+    v.into_iter().map(E::of).collect()
+}
 
 fn slice(s: &Sx) -> Option<Slice> {
     let v = s.list()?;
@@ -74,43 +109,44 @@ fn slice2d_other_order(r: &Sx, c: &Sx) -> Slice2D {
     Slice2D::new().columns(slice(c).unwrap()).rows(slice(r).unwrap())
 }
 
-fn start(s: &Sx) -> Option<Option<Matrix<i64>>> {
+fn start<E: Elem>(s: &Sx) -> Option<Option<Matrix<E>>> {
     let v = s.list()?;
     let tag = v.first()?.i64()?;
     Some(match (tag, v.len()) {
         (0, 2) => {
             let rows: Vec<Vec<i64>> = v[1].list()?.iter().map(|r| r.i64s()).collect::<Option<_>>()?;
+            let rows: Vec<Vec<E>> = rows.into_iter().map(elems).collect();
             guarded(move || Matrix::from(rows))
         }
         (1, 4) => {
             let (r, c, vals) = (v[1].usize()?, v[2].usize()?, v[3].i64s()?);
-            guarded(move || Matrix::from_flat_row_major((r, c), vals))
+            guarded(move || Matrix::from_flat_row_major((r, c), elems::<E>(vals)))
         }
         (2, 2) => {
             let x = v[1].i64()?;
-            Some(Matrix::from_scalar(x))
+            Some(Matrix::from_scalar(E::of(x)))
         }
         (3, 2) => {
             let vals = v[1].i64s()?;
-            guarded(move || Matrix::row(vals))
+            guarded(move || Matrix::row(elems::<E>(vals)))
         }
         (4, 2) => {
             let vals = v[1].i64s()?;
-            guarded(move || Matrix::column(vals))
+            guarded(move || Matrix::column(elems::<E>(vals)))
         }
         (5, 3) => {
             let (r, c) = (v[1].usize()?, v[2].usize()?);
             if r > 64 || c > 64 {
                 return None;
             }
-            guarded(move || Matrix::from_fn((r, c), |(i, j)| 100 + 10 * i as i64 + j as i64))
+            guarded(move || Matrix::from_fn((r, c), |(i, j)| E::of(100 + 10 * i as i64 + j as i64)))
         }
         (6, 4) => {
             let (r, c, x) = (v[1].usize()?, v[2].usize()?, v[3].i64()?);
             if r > 64 || c > 64 {
                 return None;
             }
-            guarded(move || Matrix::empty(x, (r, c)))
+            guarded(move || Matrix::empty(E::of(x), (r, c)))
         }
         _ => return None,
     })
@@ -140,7 +176,7 @@ fn cell(v: Option<i64>) -> Sx {
 }
 
 /// Everything a client can see; the access forms that must agree are cross-checked here.
-fn observe(m: &Matrix<i64>) -> Sx {
+fn observe<E: Elem>(m: &Matrix<E>) -> Sx {
     let (rows, columns) = m.size();
     if m.rows() != rows || m.columns() != columns || m.view_rows() != rows || m.view_columns() != columns {
         return inconsistent(1101);
@@ -151,12 +187,12 @@ fn observe(m: &Matrix<i64>) -> Sx {
     let mut elements = vec![];
     for r in 0..rows {
         for c in 0..columns {
-            let g = guarded(|| m.get(r, c));
-            if guarded(|| *m.get_reference(r, c)) != g {
+            let g = guarded(|| m.get(r, c).val());
+            if guarded(|| m.get_reference(r, c).val()) != g {
                 return inconsistent(1103);
             }
             // the checked accessor must agree with the panicking ones (absent <-> panic)
-            match guarded(|| m.try_get_reference(r, c).copied()) {
+            match guarded(|| m.try_get_reference(r, c).map(|x| x.val())) {
                 Some(t) if t == g => {}
                 _ => return inconsistent(1104),
             }
@@ -170,13 +206,13 @@ fn observe(m: &Matrix<i64>) -> Sx {
     if guarded(|| m.get(rows, 0)).is_some() || guarded(|| m.get(0, columns)).is_some() {
         return inconsistent(1106);
     }
-    let row_major: Option<Vec<i64>> = guarded(|| m.row_major_iter().collect());
-    let row_major_ref: Option<Vec<i64>> = guarded(|| m.row_major_reference_iter().copied().collect());
+    let row_major: Option<Vec<i64>> = guarded(|| m.row_major_iter().map(|x| x.val()).collect());
+    let row_major_ref: Option<Vec<i64>> = guarded(|| m.row_major_reference_iter().map(|x| x.val()).collect());
     if row_major != row_major_ref {
         return inconsistent(1107);
     }
-    let column_major: Option<Vec<i64>> = guarded(|| m.column_major_iter().collect());
-    let column_major_ref: Option<Vec<i64>> = guarded(|| m.column_major_reference_iter().copied().collect());
+    let column_major: Option<Vec<i64>> = guarded(|| m.column_major_iter().map(|x| x.val()).collect());
+    let column_major_ref: Option<Vec<i64>> = guarded(|| m.column_major_reference_iter().map(|x| x.val()).collect());
     if column_major != column_major_ref {
         return inconsistent(1108);
     }
@@ -199,10 +235,19 @@ fn observe(m: &Matrix<i64>) -> Sx {
 }
 
 pub fn run(args: &[Sx]) -> Sx {
+    let a = history::<i64>(args);
+    let b = history::<Heap>(args);
+    if a != b {
+        return inconsistent(1140);
+    }
+    a
+}
+
+fn history<E: Elem>(args: &[Sx]) -> Sx {
     if args.len() != 3 || args[0].i64() != Some(1) {
         return bad_case();
     }
-    let Some(first) = start(&args[1]) else { return bad_case() };
+    let Some(first) = start::<E>(&args[1]) else { return bad_case() };
     let Some(ops) = args[2].list().and_then(|v| v.iter().map(op).collect::<Option<Vec<Op>>>()) else {
         return bad_case();
     };
@@ -210,10 +255,10 @@ pub fn run(args: &[Sx]) -> Sx {
     let mut out = vec![observe(&m)];
     for o in ops {
         let fine = match o {
-            Op::InsertRow(r, v) => guarded(|| m.insert_row(r, v)).is_some(),
-            Op::InsertRowWith(r, vs) => guarded(|| m.insert_row_with(r, vs.into_iter())).is_some(),
-            Op::InsertColumn(c, v) => guarded(|| m.insert_column(c, v)).is_some(),
-            Op::InsertColumnWith(c, vs) => guarded(|| m.insert_column_with(c, vs.into_iter())).is_some(),
+            Op::InsertRow(r, v) => guarded(|| m.insert_row(r, E::of(v))).is_some(),
+            Op::InsertRowWith(r, vs) => guarded(|| m.insert_row_with(r, elems::<E>(vs).into_iter())).is_some(),
+            Op::InsertColumn(c, v) => guarded(|| m.insert_column(c, E::of(v))).is_some(),
+            Op::InsertColumnWith(c, vs) => guarded(|| m.insert_column_with(c, elems::<E>(vs).into_iter())).is_some(),
             Op::RemoveRow(r) => guarded(|| m.remove_row(r)).is_some(),
             Op::RemoveColumn(c) => guarded(|| m.remove_column(c)).is_some(),
             Op::RetainMut(r, c) => guarded(|| m.retain_mut(slice2d(&r, &c))).is_some(),
@@ -244,36 +289,36 @@ pub fn run(args: &[Sx]) -> Sx {
             Op::Set(r, c, v) => {
                 // every way of writing one element must agree with `set`
                 let mut a = m.clone();
-                let wrote_a = guarded(|| *a.get_reference_mut(r, c) = v).is_some();
+                let wrote_a = guarded(|| *a.get_reference_mut(r, c) = E::of(v)).is_some();
                 let mut b = m.clone();
-                let wrote_b = match guarded(|| b.try_get_reference_mut(r, c).map(|cell| *cell = v)) {
+                let wrote_b = match guarded(|| b.try_get_reference_mut(r, c).map(|cell| *cell = E::of(v))) {
                     Some(Some(())) => true,
                     Some(None) => false,
                     None => return inconsistent(1130),
                 };
-                let wrote = guarded(|| m.set(r, c, v)).is_some();
+                let wrote = guarded(|| m.set(r, c, E::of(v))).is_some();
                 if wrote_a != wrote || wrote_b != wrote || a != m || b != m {
                     return inconsistent(1131);
                 }
                 if wrote {
                     let mut d = m.clone();
-                    unsafe { *d.get_reference_unchecked_mut(r, c) = v };
-                    if d != m || unsafe { *m.get_reference_unchecked(r, c) } != v {
+                    unsafe { *d.get_reference_unchecked_mut(r, c) = E::of(v) };
+                    if d != m || unsafe { m.get_reference_unchecked(r, c).val() } != v {
                         return inconsistent(1132);
                     }
                 }
                 wrote
             }
             Op::MapMut(k) => {
-                let mapped = guarded(|| m.map(|x| x + k));
-                let fine = guarded(|| m.map_mut(|x| x + k)).is_some();
+                let mapped = guarded(|| m.map(|x| E::of(x.val() + k)));
+                let fine = guarded(|| m.map_mut(|x| E::of(x.val() + k))).is_some();
                 if mapped.as_ref() != Some(&m) || !fine {
                     return inconsistent(1133);
                 }
                 fine
             }
             Op::MapMutWithIndex(k) => {
-                let f = |x: i64, i: usize, j: usize| x + k * (10 * i as i64 + j as i64 + 1);
+                let f = |x: E, i: usize, j: usize| E::of(x.val() + k * (10 * i as i64 + j as i64 + 1));
                 let mapped = guarded(|| m.map_with_index(f));
                 let fine = guarded(|| m.map_mut_with_index(f)).is_some();
                 if mapped.as_ref() != Some(&m) || !fine {
